@@ -90,7 +90,7 @@ def make_cases(histories, rng, bases=None, first_id=1, grids=None):
     for i, h in enumerate(histories):
         b = bases[i % len(bases)] if rng is None else rng.choice(bases)
         g = (grids[i % len(grids)] if grids else dict())
-        cases.append({"id": first_id + i, "base": base_args(b, **g), "ctor": h["ctor"], "steps": h["steps"], "label": h.get("label", "")})
+        cases.append({"id": first_id + i, "base": base_args(b, **g), "ctor": h["ctor"], "steps": h["steps"], "label": h.get("label", ""), "c01": 0})
     return cases
 
 
@@ -119,7 +119,7 @@ def validate_trace(tpath, label):
     cfg = os.path.join(vlib.BUILD, "cfg", "trace_solver.cfg")
     with open(cfg, "w") as f:
         f.write("SPECIFICATION TraceSpec\nCONSTANTS\n  FIXED = %s\n  MaxCalls = 1000000\n  MaxIterDom = {0,2,30,150}\n  ExtDom = {0,1,2,3}\n"
-                "  LDom = {2,3,4,5,6}\n  MiscDom = {0,1,2,3,4,5}\n  Settable = {}\n  GenHist = FALSE\n"
+                "  LDom = {2,3,4,5,6}\n  MiscDom <- TraceMisc\n  Settable = {}\n  GenHist = FALSE\n"
                 "CONSTRAINT Progress\n"
                 "INVARIANTS ModeAgrees StartIsData StatsDefined HistoriesOwn StopTruth RejectOrRun NotAccepted\n" % ALL_FIXED)
     r = vlib.tlc("TraceSolver", cfg, workers=1, env={"TRACE": tpath}, tag="trace" + label, timeout=1800, heap="8g")
